@@ -589,7 +589,9 @@ impl<S: WebSocket, T: TimestampProvider> Task<S, T> {
                 if let Err(e) = self.datagram_tx.try_send(datagram) {
                     match e {
                         TrySendError::Full(_) => warn!("Dropped datagram: {e}"),
-                        TrySendError::Closed(_) => return Err(Error::Closed),
+                        // The `Multiplexor` has been dropped: the drop notification that is
+                        // already queued winds the task down in the orderly way.
+                        TrySendError::Closed(_) => debug!("Dropped datagram: {e}"),
                     }
                 }
             }
@@ -683,11 +685,13 @@ impl<S: WebSocket, T: TimestampProvider> Task<S, T> {
         // At the con_recv side, we use `con_recv_stream_tx` to send the new stream to the
         // user.
         trace!("sending stream to user");
-        // This goes to the user
-        self.con_recv_stream_tx
-            .send(stream)
-            .await
-            .or(Err(Error::SendStreamToClient))?;
+        // This goes to the user. If the `Multiplexor` has been dropped nobody can take it any
+        // more: dropping the stream aborts it, and the drop notification that is already
+        // queued winds the task down in the orderly way (flushing what is still queued), so
+        // this is not an error of the connection.
+        if self.con_recv_stream_tx.send(stream).await.is_err() {
+            debug!("`Multiplexor` dropped before a new stream could be handed over");
+        }
         Ok(())
     }
 
